@@ -1873,11 +1873,17 @@ namespace bloch::runtime {
             // constructor) must not take that qubit down with it.
             for (int q : obj->ownedQubits) {
                 ensureQubitExists(q, 0, 0);
-                m_sim.reset(q);
-                // A handle copied out of the object ('qubit h = o.q;', 'new A().q', a method
-                // returning this.q) may outlive it. Whether one does is decided when the index
-                // is about to be reused (allocateTrackedQubit), not here: at this point the
-                // handle may exist only in a value that is still being passed along.
+                // A handle copied out of the object ('qubit h = o.q;', a method returning
+                // this.q) may outlive it, and WHEN the object dies can depend on the collector
+                // (an object that garbage still refers to dies when the garbage is swept). So
+                // while a handle names the qubit the owner's death does nothing to it: neither
+                // its state nor its measured mark changes under the handle. The index becomes
+                // available either way; a new declaration takes it (and resets it) only once no
+                // handle names it any more (allocateTrackedQubit).
+                if (!qubitStillNamed(q, obj)) {
+                    m_sim.reset(q);
+                    unmarkMeasured(q);
+                }
                 releaseQubit(q);
             }
             obj->ownedQubits.clear();
@@ -4012,7 +4018,6 @@ namespace bloch::runtime {
     void RuntimeEvaluator::releaseQubit(int index) {
         if (index < 0 || index >= static_cast<int>(m_qubits.size()))
             return;
-        unmarkMeasured(index);
         m_qubits[index].name.clear();
         m_freeQubitIndices.push_back(index);
     }
